@@ -293,7 +293,8 @@ func c02Run(r *mon.Run) {
 		w.Hit("recycled-T-buffer")
 		for round := 0; round < 3; round++ {
 			copy(buf, same[rng.Intn(len(same))])
-			c02Judge(w, c02Case{N1: n1, N2: N - n1, T: buf, Us: []float64{float64(rng.Intn(2*n1*(N-n1)+1)) / 2, rng.Uniform(0, float64(n1*(N-n1))), float64(n1*(N-n1)) / 2}}, false)
+			// (the caller's own buffer is what the library must see: no guard copy)
+			c02Judge(w, c02Case{N1: n1, N2: N - n1, T: buf, noGuard: true, Us: []float64{float64(rng.Intn(2*n1*(N-n1)+1)) / 2, rng.Uniform(0, float64(n1*(N-n1))), float64(n1*(N-n1)) / 2}}, false)
 		}
 		_ = k
 	})
